@@ -25,7 +25,7 @@ RULES["C14"] = (
     "reverses entities independently, permutes entities and vertex numbering and either shares joint vertices or duplicates "
     "them (merged by the constructor or by process()). Oracle from the construction: curve count, body_count = even-depth "
     "curves, shell->holes map, area = sum (-1)^depth (shoelace + signed circular segments), length = sum chords + r|phi|; "
-    "polygons matched by bounds. Transforms: similarity / mirror 3x3 matrices, any subset of 9 derived values read before each "
+    "polygons matched by bounds, area and centroid checked per curve; every Arc entity must discretise onto the circumcircle of its three points. Transforms: similarity / mirror 3x3 matrices, any subset of 9 derived values read before each "
     "of up to two transforms, compared with a cold path built from fresh entities on M.V. Round trips through dxf, svg, dict. "
     "Non-trivial: >=2 curves with nesting, >=1 curve in >=2 entities, >=1 entity reversed."
 )
@@ -157,6 +157,11 @@ def analyse(p, D, sig, dfr, arcs_label, ext=None):
         npts = len(d)
         atol = cond_atol(D, cur, npts) + ext["area"]
         check(abs(a - cur.area) <= 1e-9 * cur.area + atol + 1.01 * da, sig + f"|curve_area|{'arc' if cur.has_arc else 'poly'}", lambda: f"curve {ci} ({cur.kind}): polygon area {a!r} vs exact {cur.area!r} (discretisation slack {da:.3g})")
+        # centroid: exact for polygons, from a 1500-point-per-arc reference otherwise; an inscribed discretisation moves it
+        # by at most (lost area / area) * diameter
+        diag = float(np.hypot(*(cur.bounds[1] - cur.bounds[0])))
+        ctol = 1e-9 * max(D.cmax, D.scale) + 2.0 * (1.01 * da + atol) / cur.area * diag + 2 * ext["delta"]
+        check(np.abs(c - cur.centroid).max() <= ctol, sig + f"|curve_centroid|{'arc' if cur.has_arc else 'poly'}", lambda: f"curve {ci} ({cur.kind}): polygon centroid {c.tolist()} vs constructed {np.asarray(cur.centroid).tolist()} (tol {ctol:.3g})")
         fp["curves"][ci] = (a, b, c, npts)
     # roots / body count / nesting
     want_roots = sorted(i for i, cur in enumerate(D.curves) if cur.depth % 2 == 0)
@@ -221,7 +226,7 @@ def match_one(D, b, sig, extra=0.0):
     return hits[0]
 
 
-def compare_fp(D, a, b, sig, what, area_scale=1.0, len_scale=1.0, loose=0.0, rediscretised=False):
+def compare_fp(D, a, b, sig, what, area_scale=1.0, len_scale=1.0, loose=0.0, rediscretised=False, same_coords=False):
     """fingerprints of two paths over the same drawing (D carries the measures of side b): equal to 1e-9 when the arcs are
     discretised identically; when side b may have been re-discretised with another segment count (the count depends on
     Path.scale = AABB diagonal, which a rotation changes) both sides are inscribed polygons within disc_tol of the exact curve"""
@@ -231,6 +236,12 @@ def compare_fp(D, a, b, sig, what, area_scale=1.0, len_scale=1.0, loose=0.0, red
         A1, B1, C1, n1 = b["curves"][ci]
         at = 1e-9 * max(A1, 0.0) + cond_atol(D, cur, max(n0, n1)) * max(s2, 1.0) + loose * cur.perimeter * s1 + (1.01 * cur.disc_tol()[0] if rediscretised else 0.0)
         check(abs(A0 * s2 - A1) <= at, sig + "|curve_area", lambda: f"{what}: curve {ci}: {A0 * s2!r} vs {A1!r}")
+        if same_coords and not rediscretised:
+            # same coordinates on both sides: the polygons coincide (matched by bounds and centroid); a closed Arc may be
+            # discretised from another start angle (an equally valid inscribed regular polygon with the same centroid)
+            pt = 1e-9 * max(D.cmax, D.scale) + 2 * loose
+            check(np.abs(B0 - B1).max() <= pt + (1.01 * cur.disc_tol()[1] if cur.kind == "circle" else 0.0), sig + "|curve_bounds", lambda: f"{what}: curve {ci}: bounds {B0.tolist()} vs {B1.tolist()}")
+            check(np.abs(C0 - C1).max() <= pt + 2.0 * at / max(A1, 1e-300) * float(np.hypot(*(cur.bounds[1] - cur.bounds[0]))), sig + "|curve_centroid", lambda: f"{what}: curve {ci}: centroid {C0.tolist()} vs {C1.tolist()}")
     da = sum(1.01 * c.disc_tol()[0] for c in D.curves) if rediscretised else 0.0
     check(abs(a["area"] * s2 - b["area"]) <= 1e-9 * sum(c.area for c in D.curves) * s2 + sum(cond_atol(D, c, 100) for c in D.curves) * max(s2, 1.0) + loose * D.length * s1 * s1 + da, sig + "|area", lambda: f"{what}: area {a['area'] * s2!r} vs {b['area']!r}")
     check(abs(a["length"] * s1 - b["length"]) <= 1e-9 * b["length"] + loose * 4 * D.n * s1, sig + "|length", lambda: f"{what}: length {a['length'] * s1!r} vs {b['length']!r}")
@@ -284,7 +295,7 @@ def b_draw(case, ctx):
             check(float(p.area) == fps[-1]["area"] and float(p.length) == fps[-1]["length"], sig + "|reread", "area/length changed on second read")
         ctx.note(nontrivial=nontrivial(D, agg), cls=sorted(labels))
         for vi in range(1, len(fps)):
-            compare_fp(D, fps[0], fps[vi], f"C14.draw|variants|{al}", f"canonical vs variant {vi} ({variants[vi]['mode']})")
+            compare_fp(D, fps[0], fps[vi], f"C14.draw|variants|{al}", f"canonical vs variant {vi} ({variants[vi]['mode']})", same_coords=True)
         dfr.flush()
 
 
@@ -351,7 +362,7 @@ def b_transform(case, ctx):
         # part is +-s on the diagonal keeps the count, otherwise the two sides are different inscribed polygons of the same arcs
         Lm = Mtot[:2, :2]
         redisc = D.has_arcs and not (abs(Lm[0, 1]) + abs(Lm[1, 0]) <= 1e-15 * abs(Lm[0, 0]) and abs(abs(Lm[0, 0]) - abs(Lm[1, 1])) <= 1e-15 * abs(Lm[0, 0]))
-        compare_fp(Dt, fc, fw, sig + f"|warm_vs_cold|{al}", f"transformed path (reads before: {[st_['reads'] for st_ in case['steps']]}) vs cold path on M.V ({mcls})", rediscretised=redisc)
+        compare_fp(Dt, fc, fw, sig + f"|warm_vs_cold|{al}", f"transformed path (reads before: {[st_['reads'] for st_ in case['steps']]}) vs cold path on M.V ({mcls})", rediscretised=redisc, same_coords=True)
         # similarity scaling of the measures taken before the transform
         compare_fp(Dt, base, fw, sig + f"|scaling|{al}", f"s={s!r} ({mcls})", area_scale=s * s, len_scale=s, rediscretised=redisc)
         dfr.flush()
@@ -389,6 +400,7 @@ class TransformedCurve:
         self.mids = [None if m is None else L @ m + t for m in c.mids] if c.kind != "circle" else []
         self.area = c.area * s * s
         self.perimeter = c.perimeter * s
+        self.centroid = L @ np.asarray(c.centroid) + t
         rot = math.atan2(L[1, 0], L[0, 0])
         self.arc_info = []
         lo = self.nodes.min(axis=0) if c.kind != "circle" else None
@@ -492,7 +504,7 @@ def b_roundtrip(case, ctx):
         fq = analyse(q, D, sig + "|reloaded", dfr, al, ext=slack)
         fp0 = analyse(p, D, sig + "|original", dfr, al)
         check(len(q.entities) == n_ent, sig + "|entity_count", f"{len(q.entities)} entities after reload, {n_ent} before")
-        compare_fp(D, fp0, fq, sig + f"|measures|{al}", f"{fmt} reload", loose=slack["delta"] + (slack["area"] * D.n / max(D.length, 1e-300)))
+        compare_fp(D, fp0, fq, sig + f"|measures|{al}", f"{fmt} reload", loose=slack["delta"] + (slack["area"] * D.n / max(D.length, 1e-300)), same_coords=True)
         check(abs(fq["length"] - fp0["length"]) <= 1e-9 * fp0["length"] + slack["length"], sig + f"|length|{al}", f"{fq['length']!r} vs {fp0['length']!r}")
         dfr.flush()
 
@@ -537,32 +549,32 @@ def roundtrip_case(draw, fmt):
 
 @subcheck("C14", "draw", shards={"quick": 5, "thorough": 12})
 def s_draw(ctx):
-    ctx.given("C14.draw", draw_case(arcs=True), n={"quick": 1000, "thorough": 40000})
+    ctx.given("C14.draw", draw_case(arcs=True), n={"quick": 1000, "thorough": 24000})
 
 
-@subcheck("C14", "draw_poly", shards={"quick": 3, "thorough": 8})
+@subcheck("C14", "draw_poly", shards={"quick": 3, "thorough": 6})
 def s_draw_poly(ctx):
-    ctx.given("C14.draw", draw_case(arcs=False), n={"quick": 600, "thorough": 25000})
+    ctx.given("C14.draw", draw_case(arcs=False), n={"quick": 600, "thorough": 12000})
 
 
 @subcheck("C14", "transform", shards={"quick": 4, "thorough": 12})
 def s_transform(ctx):
-    ctx.given("C14.transform", transform_case(), n={"quick": 800, "thorough": 30000})
+    ctx.given("C14.transform", transform_case(), n={"quick": 800, "thorough": 24000})
 
 
 @subcheck("C14", "roundtrip_dxf", shards={"quick": 2, "thorough": 6})
 def s_rt_dxf(ctx):
-    ctx.given("C14.roundtrip", roundtrip_case("dxf"), n={"quick": 300, "thorough": 10000})
+    ctx.given("C14.roundtrip", roundtrip_case("dxf"), n={"quick": 300, "thorough": 9000})
 
 
-@subcheck("C14", "roundtrip_svg", shards={"quick": 1, "thorough": 6})
+@subcheck("C14", "roundtrip_svg", shards={"quick": 2, "thorough": 6})
 def s_rt_svg(ctx):
-    ctx.given("C14.roundtrip", roundtrip_case("svg"), n={"quick": 300, "thorough": 10000})
+    ctx.given("C14.roundtrip", roundtrip_case("svg"), n={"quick": 300, "thorough": 9000})
 
 
-@subcheck("C14", "roundtrip_dict", shards={"quick": 1, "thorough": 3})
+@subcheck("C14", "roundtrip_dict", shards={"quick": 1, "thorough": 2})
 def s_rt_dict(ctx):
-    ctx.given("C14.roundtrip", roundtrip_case("dict"), n={"quick": 200, "thorough": 6000})
+    ctx.given("C14.roundtrip", roundtrip_case("dict"), n={"quick": 200, "thorough": 3000})
 
 
 REQUIRED_CLASSES["C14"] = [
